@@ -537,6 +537,7 @@ def insert_loop_contracts(body, loops, st):
     pat = re.compile(r'\b(for|while|do)\b')
     # first pass: positions
     found = []
+    kwpos = []
     found3 = []
     i = 0
     skip_while_at = set()
@@ -566,6 +567,7 @@ def insert_loop_contracts(body, loops, st):
                 wpos = be + 1 + body[be + 1:].index('while')
                 skip_while_at.add(wpos)
                 found.append(('do', m.end()))     # CBMC: do <contract> { ... } while (c);
+                kwpos.append(m.start())
                 found3.append(('do', m.end(), body[be + 1:pe + 1]))
                 pos = m.end()
                 continue
@@ -580,6 +582,7 @@ def insert_loop_contracts(body, loops, st):
                 continue
             pe = match(body, k, '(', ')')
             found.append((kw, pe + 1))
+            kwpos.append(pos)
             found3.append((kw, pe + 1, body[pos:pe + 1]))
             pos = m.end()
             continue
@@ -612,5 +615,15 @@ def insert_loop_contracts(body, loops, st):
         at = found[o][1]
         out = out[:at] + '\n' + chosen[o].strip() + '\n' + out[at:]
         bump(st, 'loop-contract')
+        # a real instruction between whatever precedes the loop and its head: without it an inlined shim call right before
+        # the loop gives the head a second entry edge that bypasses DFCC's havoc (seen as a failing loop_step_unwinding
+        # check).  Only where the loop is a statement of a block (after ; { } ), never as the unbraced body of an if/else.
+        kp = kwpos[o]
+        j = kp - 1
+        while j >= 0 and out[j].isspace():
+            j -= 1
+        if j < 0 or out[j] in ';{}':
+            out = out[:kp] + 'int __lc_sep_%d = 0; ' % o + out[kp:]
+            bump(st, 'loop-separator')
     st['loops-in-function'] = len(found)
     return out
